@@ -204,6 +204,17 @@ def generate(rng, tier):
                 "max_restarts": 10000, "max_conflicts": 20000, "gc": rng.choice([2, 4, 8, 16]),
                 "decide": {"policy": rng.choice(["random", "vsids"]), "seed": rng.getrandbits(30), "p": 1.0}}
     clauses = gen_formula(rng, big)
+    if rng.random() < 0.08:
+        # legal but unusual clause shapes: a literal listed twice, or a tautology (x or not x)
+        for _ in range(rng.choice([1, 1, 2])):
+            c = rng.choice(clauses)
+            if c:
+                lit = rng.choice(c)
+                c.insert(rng.randrange(len(c) + 1), lit if rng.random() < 0.7 else -lit)
+    if rng.random() < 0.1 and clauses:
+        # the same clause listed twice (formulas assembled from parts often repeat clauses)
+        for _ in range(rng.choice([1, 1, 2])):
+            clauses.insert(rng.randrange(len(clauses) + 1), list(rng.choice(clauses)))
     if rng.random() < 0.03:
         clauses.append([])  # empty clause
     nv = max((abs(l) for c in clauses for l in c), default=1)
@@ -222,6 +233,8 @@ def generate(rng, tier):
         "gc": rng.choice([2, 8, 64, 2000, 2000]),
         "decide": {"policy": rng.choice(["vsids", "vsids", "random", "random", "low", "high", "prefix"]), "seed": rng.getrandbits(30),
                    "p": rng.choice([1.0, 0.5, 0.2])},
+        # equal clauses are passed as ONE shared list object (`[clause] * 2` style) or as tuples
+        "share": rng.choice([False, False, True]), "tuples": rng.random() < 0.2,
     }
     return case
 
@@ -329,6 +342,21 @@ def step_limit(case):
 # ------------------------------------------------------------------------------------------- execution
 
 
+def build_clauses(case):
+    if case.get("tuples"):
+        return [tuple(c) for c in case["clauses"]]
+    if not case.get("share"):
+        return [list(c) for c in case["clauses"]]
+    pool: dict = {}
+    out = []
+    for c in case["clauses"]:
+        k = tuple(c)
+        if k not in pool:
+            pool[k] = list(c)
+        out.append(pool[k])
+    return out
+
+
 def run_once(case, use_hooks=True, decide=None):
     m = solvor_mod("sat")
     fn = solve_sat_with_gc(case.get("gc", 2000))
@@ -346,7 +374,7 @@ def run_once(case, use_hooks=True, decide=None):
     exceeded = False
     try:
         with budget.steps(step_limit(case)) as b:
-            res = fn([list(c) for c in case["clauses"]], assumptions=list(case["assumptions"]) or None,
+            res = fn(build_clauses(case), assumptions=list(case["assumptions"]) or None,
                      max_conflicts=case["max_conflicts"], max_restarts=case["max_restarts"], solution_limit=case["solution_limit"],
                      luby_factor=case["luby_factor"])
     except budget.StepBudgetExceeded:
@@ -396,6 +424,8 @@ def judge(case, r, o: Outcome, label, ref, shipped):
             why = check_model(clauses, assumptions, sol)
             if why:
                 o.violate("C01", "bad_model", f"{label}: status {st}, solution #{k} {sol}: {why}", **key)
+                # C02: "answers with a model whenever one exists" - what came back is not a model
+                o.violate("C02", "answer_is_not_a_model", f"{label}: status {st}, solution #{k} {sol}: {why}", **key)
                 break
         seen = []
         for sol in (list(res.solutions) if res.solutions is not None else []):
@@ -498,6 +528,10 @@ def execute(case) -> Outcome:
 def shrink(case):
     if case["decide"]["policy"] != "vsids":
         yield shr.with_path(case, ("decide", "policy"), "vsids")
+    if case.get("share"):
+        yield shr.with_path(case, ("share",), False)
+    if case.get("tuples"):
+        yield shr.with_path(case, ("tuples",), False)
     if case.get("gc", 2000) != 2000:
         yield shr.with_path(case, ("gc",), 2000)
     yield from shr.list_shrinks(case, ("clauses",), 1)
